@@ -848,6 +848,31 @@ pub fn f3a(full: bool) -> Vec<Pos> {
     if !out.iter().any(|p| p.sent == r) {
         add_both(&mut out, r, "F3a");
     }
+    out.extend(f3_wrap());
+    out
+}
+
+/// En-passant marks on the a- and h-file with a pawn of the side to move on the square whose INDEX is next to the
+/// double-stepped pawn's but which lies on the other edge of the board (h5 | a4, h6 | a5, h4 | a3 …): square arithmetic
+/// by `index ± 1` without a file test wraps around exactly there. With and without a genuine capturer.
+pub fn f3_wrap() -> Vec<Pos> {
+    let mut out = Vec::new();
+    add_fens(
+        &mut out,
+        &[
+            "4k3/8/8/7p/P7/8/8/4K3 w - h6 0 1",
+            "4k3/8/8/6Pp/P7/8/8/4K3 w - h6 0 1",
+            "4k3/8/7P/p7/8/8/8/4K3 w - a6 0 1",
+            "4k3/8/7P/pP6/8/8/8/4K3 w - a6 0 1",
+            "4k3/8/8/7p/P7/8/8/4K3 b - a3 0 1",
+            "4k3/8/8/7p/Pp6/8/8/4K3 b - a3 0 1",
+            "4k3/8/8/8/7P/p7/8/4K3 b - h3 0 1",
+            "4k3/8/8/8/6pP/p7/8/4K3 b - h3 0 1",
+            "r3k2r/8/8/7p/P7/8/8/R3K2R w KQkq h6 0 1",
+            "r3k2r/8/8/7p/P7/8/8/R3K2R b KQkq a3 0 1",
+        ],
+        "F3a",
+    );
     out
 }
 
@@ -1683,6 +1708,49 @@ pub fn f3i_predecessors(ps: &[Pos]) -> Vec<(Pos, Move)> {
     out
 }
 
+/// Predecessors by a double pawn step: for a position carrying an en-passant mark, the position before that double step
+/// and the step itself (when it is legal there and leads to exactly the given squares). With the single-group positions
+/// whose only legal replies are en-passant captures this gives games in which a double step gives check and the
+/// en-passant capture is the only answer — the check / mate mark of the double step hangs on the en-passant generator.
+pub fn ep_predecessors(ps: &[Pos]) -> Vec<(Pos, Move)> {
+    let mut out = Vec::new();
+    for q in ps {
+        let r = q.board.raw();
+        let idx = match r.ep_source {
+            Some(s) => s.index(),
+            None => continue,
+        };
+        let mover_white = r.side == Color::Black;
+        let (from, mid) = if mover_white { (idx + 16, idx + 8) } else { (idx.wrapping_sub(16), idx.wrapping_sub(8)) };
+        if from >= 64 || mid >= 64 {
+            continue;
+        }
+        let mut cells = raw_to_cells(r);
+        if cells[from] != 0 || cells[mid] != 0 || (cells[idx] != WP && cells[idx] != BP) {
+            continue;
+        }
+        cells[from] = cells[idx];
+        cells[idx] = 0;
+        let side = if mover_white { Color::White } else { Color::Black };
+        let raw = cells_to_raw(&cells, side, r.castling.index() as u8, None, 0, 1);
+        let p = match pos_of(raw, "F3i-pred-double") {
+            Some(p) => p,
+            None => continue,
+        };
+        for mv in true_legal_moves(&p.board) {
+            if mv.kind() == MoveKind::PawnDouble && mv.src().index() == from {
+                if let Some(nb) = safe_make(&p.board, mv) {
+                    if nb.raw().cells == r.cells {
+                        out.push((p.clone(), mv));
+                    }
+                }
+                break;
+            }
+        }
+    }
+    out
+}
+
 pub fn f3_all(rng: &mut Rng, full: bool) -> F3All {
     let mut pos = Vec::new();
     let mut dropped = Vec::new();
@@ -1703,6 +1771,108 @@ pub fn f3_all(rng: &mut Rng, full: bool) -> F3All {
         pos,
         dropped_fens: dropped,
     }
+}
+
+// ------------------------------------------------------------------ forced outcome vs. draw by counter / material
+
+/// Positions with a QUIET move (no capture, no pawn move) after which the opponent has no legal move — mate or
+/// stalemate — while a draw rule applies to the resulting position as well: the half-move clock reaches 150 / 100 with
+/// that very move (start clocks 149 / 99), or the material is insufficient (K+N or K+B against a bare king,
+/// stalemating). The forced outcome must win over the draw. Seeded search over sparse positions, both colours.
+pub fn quiet_finishers(rng: &mut Rng, tries: usize, per_class: usize) -> Vec<(Pos, Move, &'static str)> {
+    use std::collections::HashMap;
+    let mut have: HashMap<&'static str, usize> = HashMap::new();
+    let mut out: Vec<(Pos, Move, &'static str)> = Vec::new();
+    let sets: [&[u8]; 8] = [&[WQ], &[WR], &[WR, WR], &[WQ, WB], &[WN], &[WB], &[WR, BN], &[WQ, BP]];
+    for t in 0..tries {
+        let minor = t % 3 == 0;
+        let set: &[u8] = if minor { sets[4 + (t / 3) % 2] } else { sets[rng.usize(sets.len())] };
+        let mut cells: Cells = [0; 64];
+        // the king to be finished off stands in a corner or on an edge most of the time
+        let bk = if rng.chance(3, 4) {
+            *rng.pick(&[0usize, 7, 56, 63, 1, 6, 8, 15, 48, 55, 57, 62, 3, 4, 24, 31, 59, 60])
+        } else {
+            rng.usize(64)
+        };
+        let wk = {
+            // close to it
+            let r = (bk / 8) as i32 + rng.below(5) as i32 - 2;
+            let c = (bk % 8) as i32 + rng.below(5) as i32 - 2;
+            if !on_board(r, c) {
+                continue;
+            }
+            (r * 8 + c) as usize
+        };
+        if wk == bk || kings_adjacent(wk, bk) {
+            continue;
+        }
+        cells[bk] = BK;
+        cells[wk] = WK;
+        let mut okp = true;
+        for &m in set {
+            let sq = if minor || rng.chance(1, 2) {
+                let r = (bk / 8) as i32 + rng.below(7) as i32 - 3;
+                let c = (bk % 8) as i32 + rng.below(7) as i32 - 3;
+                if !on_board(r, c) {
+                    okp = false;
+                    break;
+                }
+                (r * 8 + c) as usize
+            } else {
+                rng.usize(64)
+            };
+            if cells[sq] != 0 || ((m == WP || m == BP) && (sq / 8 == 0 || sq / 8 == 7)) {
+                okp = false;
+                break;
+            }
+            cells[sq] = m;
+        }
+        if !okp {
+            continue;
+        }
+        let mc: u16 = if minor { *rng.pick(&[0u16, 17, 99, 149]) } else { *rng.pick(&[149u16, 99, 149, 98, 148]) };
+        let raw = cells_to_raw(&cells, Color::White, 0, None, mc, 1 + rng.below(200) as u16);
+        for raw in [raw, mirror_raw_v(&raw)] {
+            let p = match pos_of(raw, "F-finish") {
+                Some(p) => p,
+                None => continue,
+            };
+            for m in true_legal_moves(&p.board) {
+                if m.kind() != MoveKind::Simple || p.board.get(m.dst()).is_occupied() {
+                    continue;
+                }
+                let pc = m.src_cell().index() as u8;
+                if pc == WP || pc == BP {
+                    continue;
+                }
+                let nb = match safe_make(&p.board, m) {
+                    Some(b) => b,
+                    None => continue,
+                };
+                if !true_legal_moves(&nb).is_empty() {
+                    continue;
+                }
+                let mate = nb.is_check();
+                let class: &'static str = match (minor, mate, mc) {
+                    (true, false, _) => "stalemate_with_insufficient_material",
+                    (true, true, _) => continue,
+                    (false, true, 149) => "mate_at_clock_150",
+                    (false, true, 99) => "mate_at_clock_100",
+                    (false, false, 149) => "stalemate_at_clock_150",
+                    (false, false, 99) => "stalemate_at_clock_100",
+                    (false, true, _) => "mate_below_the_limits",
+                    (false, false, _) => "stalemate_below_the_limits",
+                };
+                let cnt = have.entry(class).or_insert(0);
+                if *cnt >= per_class {
+                    continue;
+                }
+                *cnt += 1;
+                out.push((p.clone(), m, class));
+            }
+        }
+    }
+    out
 }
 
 // ------------------------------------------------------------------ F4
